@@ -10,6 +10,19 @@ THEOREMS = [
 ]
 
 
+def extra_cases(rng, quick):
+    """spelling-sensitive tokens: dimensions whose (escaped) unit looks like an exponent, numbers in every notation"""
+    o = {"class_prefix": None, "class_prefix_sign": None, "rpx_ratio": 750, "import_sign": None, "convert_host": False, "host_is": None}
+    units = ["\\65 -2", "\\45 -1x", "\\65 ", "\\45 ", "\\65 5", "\\45 9z", "\\65 x", "e-x", "E-Q", "\\65 -x", "px", "\\70 x", "e\\35 ", "Q", "x1", "--u", "\\2d 1"]
+    nums = ["1", "-4", "7", "1.5", "+2", "0", "-0", "100", "+2.5E3", "1e2", ".5", "16777217", "-2147483648"]
+    out = []
+    for u in units:
+        decls = ";".join("p%d:%s%s" % (i, n, u) for i, n in enumerate(nums))
+        out.append((dict(o), ".a{" + decls + "}"))
+        out.append((dict(o, rpx_ratio=100), "@media (min-width:%s%s){.a{%s}}" % (nums[rng.below(len(nums))], u, decls)))
+    return out
+
+
 def run(chk):
     chk.rule = ("generated stylesheets x option sets; (1) token tree through the Lean model vs the implementation's outputs (token-by-token, "
                 "so a merged/split/dropped token is a disagreement); (2) oracle: retokenise(output) == expected_rewrite(tokenise(input)), "
@@ -19,7 +32,7 @@ def run(chk):
                        "equals the input's (rule_rewrite_exact.shs); PARTIAL: which whitespace survives (descendant combinators, calc) and the "
                        "separator table `needsSep` making adjacent tokens re-tokenise apart are checked by oracle and correspondence, "
                        "not by a theorem; the serializer of single tokens is cssparser's"]
-    csscheck.run_property(chk, "C08", "GE.Thm.C09", THEOREMS[:4], 700, 12000)
+    csscheck.run_property(chk, "C08", "GE.Thm.C09", THEOREMS[:4], 700, 12000, extra_cases=extra_cases)
     failed, log = chk.prove("GE.Thm.C19", THEOREMS[4:])
     for t in failed:
         chk.violation("proof", f"obligation {t} no longer checks", theorem=t, log=log[-3000:])
